@@ -484,4 +484,83 @@ func c11Concurrent(c *mon.Ctx, r *mon.Rand) {
 	atomic.StoreInt32(&stop, 1)
 	wg.Wait()
 	c.Event("concurrent-snapshots", int64(nsnap))
+	c11FirstUse(c, r.Fork(7))
+}
+
+// c11FirstUse: several goroutines make the first use of the same metrics of
+// one scope of a test scope at the same moment (delay at the probe/insert
+// window); a snapshot taken after they have joined must show everything.
+func c11FirstUse(c *mon.Ctx, r *mon.Rand) {
+	prof := mon.RandomProfile(r, []int{tally.VerifMetricProbeMissed, tally.VerifSubscopeUpgrade}, r.Intn(3))
+	prof.Prob[tally.VerifMetricProbeMissed] = r.Range(300, 900)
+	inj := mon.NewDelayInjector(r.U64(), prof, false)
+	inj.Install()
+	defer inj.Uninstall()
+	ts := vNewTest("p", map[string]string{"k": "v"}, uint(r.Range(0, 3)))
+	G := r.Range(2, 8)
+	rounds := r.Range(1, 4)
+	desc := map[string]interface{}{"goroutines": G, "rounds": rounds}
+	vb := tally.ValueBuckets{1, 2, 3}
+	for round := 0; round < rounds; round++ {
+		var wg, start sync.WaitGroup
+		start.Add(1)
+		for g := 0; g < G; g++ {
+			wg.Add(1)
+			go func(g int) {
+				defer wg.Done()
+				start.Wait()
+				sc := ts.SubScope(fmt.Sprintf("r%d", round))
+				sc.Counter("c").Inc(int64(g + 1))
+				sc.Timer("t").Record(time.Duration(g + 1))
+				sc.Histogram("h", vb).RecordValue(2)
+				sc.Gauge("g").Update(float64(g + 1))
+			}(g)
+		}
+		start.Done()
+		wg.Wait()
+	}
+	snap := ts.Snapshot()
+	sum := int64(G * (G + 1) / 2)
+	for round := 0; round < rounds; round++ {
+		pre := fmt.Sprintf("p.r%d.", round)
+		found := map[string]int{}
+		for _, x := range snap.Counters() {
+			if x.Name() == pre+"c" {
+				found["c"]++
+				if x.Value() != sum {
+					c.Violation("snapshot-counter-first-use", map[string]interface{}{"why": fmt.Sprintf("%s = %d after %d goroutines made its first use together and added %d in total", x.Name(), x.Value(), G, sum), "case": desc})
+				}
+			}
+		}
+		for _, x := range snap.Timers() {
+			if x.Name() == pre+"t" {
+				found["t"]++
+				if len(x.Values()) != G {
+					c.Violation("snapshot-timer-first-use", map[string]interface{}{"why": fmt.Sprintf("%s holds %d values after %d goroutines made its first use together and recorded one each", x.Name(), len(x.Values()), G), "case": desc})
+				}
+			}
+		}
+		for _, x := range snap.Histograms() {
+			if x.Name() == pre+"h" {
+				found["h"]++
+				if x.Values()[2] != int64(G) {
+					c.Violation("snapshot-histogram-first-use", map[string]interface{}{"why": fmt.Sprintf("%s bucket 2 holds %d samples, %d recorded", x.Name(), x.Values()[2], G), "case": desc})
+				}
+			}
+		}
+		for _, x := range snap.Gauges() {
+			if x.Name() == pre+"g" {
+				found["g"]++
+				if v := x.Value(); v != math.Trunc(v) || v < 1 || v > float64(G) {
+					c.Violation("snapshot-gauge-first-use", map[string]interface{}{"why": fmt.Sprintf("%s = %v is not one of the values set", x.Name(), v), "case": desc})
+				}
+			}
+		}
+		for _, k := range []string{"c", "t", "h", "g"} {
+			if found[k] != 1 {
+				c.Violation("snapshot-entry-count", map[string]interface{}{"why": fmt.Sprintf("%d snapshot entries for %s%s after concurrent first use", found[k], pre, k), "case": desc})
+			}
+		}
+	}
+	c.Event("concurrent-first-use-rounds", int64(rounds))
 }
